@@ -23,7 +23,8 @@ pub const DEF: PropDef = PropDef {
 pub struct Case {
     pub spec: SessionSpec,
     pub stateless: bool,
-    /// 0 plain, 1 unneeded different remote key supplied on both sides, 2 tampered carrier first
+    /// 0 plain, 1 unneeded different remote key supplied on both sides, 2 tampered carrier first,
+    /// 3 = 1 + 2: a rejected carrier must not change what is reported
     pub variant: u8,
 }
 
@@ -36,7 +37,7 @@ fn oracle(c: &Case, acc: &mut Acc) -> CaseResult {
     let other_pub = rc::dh_pub(dh, &priv_from_seed(dh, spec.key_seed, 99)).unwrap();
     let mk = |init: bool| -> Result<snow::HandshakeState, Fail> {
         let mut ov = EpOverrides::default();
-        if c.variant == 1 && !pat.role_needs_remote_static(init) {
+        if (c.variant == 1 || c.variant == 3) && !pat.role_needs_remote_static(init) {
             ov.supply_rs = Some(true);
             ov.rs_value = Some(other_pub.clone());
         }
@@ -44,7 +45,7 @@ fn oracle(c: &Case, acc: &mut Acc) -> CaseResult {
     };
     let mut hi = mk(true)?;
     let mut hr = mk(false)?;
-    let supplied_extra = |init: bool| c.variant == 1 && !pat.role_needs_remote_static(init);
+    let supplied_extra = |init: bool| (c.variant == 1 || c.variant == 3) && !pat.role_needs_remote_static(init);
     // expectation for role `init` after `done` messages have been processed
     let expect = |init: bool, done: usize| -> Option<Option<Vec<u8>>> {
         if pat.role_needs_remote_static(init) {
@@ -91,6 +92,29 @@ fn oracle(c: &Case, acc: &mut Acc) -> CaseResult {
         let payload = spec.payload(idx, 4);
         let (w, r) = if i_sends { (&mut hi, &mut hr) } else { (&mut hr, &mut hi) };
         let msg = hs_write(w, &payload, 65535).map_err(|x| Fail::setup(format!("{name}: write {idx}: {}", e(&x))))?;
+        if c.variant == 3 && pat.remote_static_arrives_at(!i_sends) == Some(idx) {
+            // the key only becomes available through a SUCCESSFUL read: a rejected copy of the
+            // carrying message must leave the reported value (here: the supplied key) unchanged
+            let mut m = msg.clone();
+            let l = m.len();
+            m[l - 1] ^= 1;
+            let before = r.get_remote_static().map(|x| x.to_vec());
+            let mut buf = vec![0u8; 65535];
+            if r.read_message(&m, &mut buf).is_err() {
+                let after = r.get_remote_static().map(|x| x.to_vec());
+                ensure!(
+                    before == after,
+                    "{name}: {} after a REJECTED copy of message {idx}: get_remote_static() changed from {} to {} although the carrying message has not been read successfully",
+                    if i_sends { "responder" } else { "initiator" },
+                    before.as_ref().map_or("None".into(), |g| hexs(g)),
+                    after.as_ref().map_or("None".into(), |g| hexs(g))
+                );
+                acc.label("rejected_carrier_with_supplied_key_checked");
+            } else {
+                acc.skip("tampered carrier accepted (unauthenticated message)");
+                return Ok(());
+            }
+        }
         if c.variant == 2 && pat.remote_static_arrives_at(!i_sends) == Some(idx) {
             // tamper with the last byte (payload or its tag): the static key field itself decrypts fine
             let mut m = msg.clone();
@@ -151,7 +175,7 @@ pub fn run(ctx: &Ctx) {
             for si in picks {
                 let spec = SessionSpec::simple(hs.clone(), *per_dh[si], mix(ctx.seed, (ni * 12 + si) as u64));
                 for stateless in [false, true] {
-                    for variant in 0..3u8 {
+                    for variant in 0..4u8 {
                         if ctx.tier == Tier::Quick && variant > 0 && !hs.psks.is_empty() && (ni + variant as usize) % 3 != 0 {
                             continue;
                         }
